@@ -42,7 +42,7 @@ class LxmlSafeParserDefaults(SimpleCodemod):
 
     def on_result_found(self, original_node, updated_node):
         new_args = self.replace_args(
-            original_node,
+            updated_node,
             [
                 NewArg(name="resolve_entities", value="False", add_if_missing=True),
                 NewArg(name="no_network", value="True", add_if_missing=False),
